@@ -688,6 +688,53 @@ pub fn eval(out: &mut Out, op: &str, args: &[&str]) -> Option<String> {
             }
             "ok".into()
         }
+        "rs.fields" => {
+            // all named fields of one record / all tags of one variant: identifier and rename of each, in printed order
+            let camel = *args.first()? == "camel";
+            let mut names = vec![];
+            for a in &args[1..] {
+                names.push(String::from_utf8(sexp::unhx(a)?).ok()?);
+            }
+            let quoted = |name: &str| {
+                let mut q = String::from("\"");
+                for b in name.as_bytes() {
+                    q.push_str(&format!("\\{:02x}", b));
+                }
+                q.push('"');
+                q
+            };
+            let body: Vec<String> = names.iter().map(|n| format!("{} : nat", quoted(n))).collect();
+            let src = format!("type T = {} {{ {} }};", if camel { "variant" } else { "record" }, body.join("; "));
+            let Some(c) = c19::check_src(&src) else { return Some("rejected".into()) };
+            let text = match c19::run_gen("rust-call", &c) {
+                Ok(t) => t,
+                Err(_) => return Some("panic".into()),
+            };
+            let file = match syn::parse_file(&text) {
+                Ok(f) => f,
+                Err(_) => return Some("err not a Rust file".into()),
+            };
+            let show = |ident: String, attrs: &[syn::Attribute]| {
+                let ren = serde_rename(attrs).map(|r| sexp::hx(r.as_bytes())).unwrap_or("none".into());
+                format!("{}:{}", sexp::hx(ident.as_bytes()), ren)
+            };
+            for item in &file.items {
+                match item {
+                    syn::Item::Struct(s) if !camel => {
+                        if let syn::Fields::Named(f) = &s.fields {
+                            let parts: Vec<String> = f.named.iter().map(|fld| show(fld.ident.as_ref().unwrap().to_string(), &fld.attrs)).collect();
+                            return Some(format!("ok {}", parts.join(" ")));
+                        }
+                    }
+                    syn::Item::Enum(e) if camel => {
+                        let parts: Vec<String> = e.variants.iter().map(|v| show(v.ident.to_string(), &v.attrs)).collect();
+                        return Some(format!("ok {}", parts.join(" ")));
+                    }
+                    _ => {}
+                }
+            }
+            "err shape".into()
+        }
         "rs.derive" => {
             let src = String::from_utf8(sexp::unhx(args.first()?)?).ok()?;
             let Some(c) = c19::check_src(&src) else { return Some("rejected".into()) };
@@ -801,6 +848,38 @@ pub fn run(ctx: &mut Ctx) {
         }
         let case = if ctx.rng.chance(1, 2) { "snake" } else { "camel" };
         ctx.emit(&format!("rs.field\t{}\t{case}", sexp::hx(name.as_bytes())), true);
+    }
+    // whole field lists: labels that meet after case conversion, with and without raw identifiers
+    let pools: [&[&str]; 4] = [
+        &["fooBar", "foo_bar", "FooBar", "foo_bar_", "foo_bar__", "Foo_Bar", "fooBar_"],
+        &["type", "Type", "type_", "TYPE", "r#type", "type__", "Type_"],
+        &["self", "Self", "self_", "SELF", "Self_", "sel_f", "crate", "Crate", "crate_"],
+        &["a", "A", "a_", "A_", "_a", "_A", "aB", "a_b", "AB", "Ab", "a_B", "ab"],
+    ];
+    let reps = if ctx.thorough { 4_000 } else { 300 };
+    for k in 0..reps {
+        let pool = pools[k % pools.len()];
+        let n = ctx.rng.range(2, 7);
+        let mut names: Vec<String> = vec![];
+        for _ in 0..n {
+            let cand = if ctx.rng.chance(1, 6) {
+                let l = ctx.rng.range(1, 5);
+                (0..l).map(|_| *ctx.rng.pick(&['a', 'B', '_', 't', 'y', 'p', 'e', 'T'])).collect::<String>()
+            } else {
+                ctx.rng.pick(pool).to_string()
+            };
+            if candid::idl_hash(&cand) != 0 && !names.iter().any(|x| candid::idl_hash(x) == candid::idl_hash(&cand)) {
+                names.push(cand);
+            }
+        }
+        if names.len() < 2 {
+            continue;
+        }
+        // the generator prints fields in id order
+        names.sort_by_key(|x| candid::idl_hash(x));
+        let case = if ctx.rng.chance(1, 2) { "snake" } else { "camel" };
+        let hexes: Vec<String> = names.iter().map(|x| sexp::hx(x.as_bytes())).collect();
+        ctx.emit(&format!("rs.fields\t{case}\t{}", hexes.join("\t")), true);
     }
     // hand-written programs for the compile stage: keyword fields next to ordinary ones (the derive macro orders the
     // fields of a record by the hash of the label it computes), renames, recursive and anonymous nested types
